@@ -782,7 +782,7 @@ func (v *Verifier) axiomsFor(r *Run, terms []*Term, extra []*Term) []*Term {
 		work = collect(added)
 	}
 	// counting functions
-	for round := 0; round < 2; round++ {
+	for round := 0; round < 1; round++ {
 		ca := countAxioms(append(append(append([]*Term(nil), terms...), extra...), out...))
 		n0 := len(out)
 		for _, a := range ca {
